@@ -296,3 +296,141 @@ def c11(tier, seed):
               'watches ownership of moved groups; distinct = message shapes')
     c.assumptions = ['SendingTime is set explicitly so encodings are comparable']
     c.finish()
+
+
+# ---------------------------------------------------------------------------------------------------------
+# decode-only checks: inputs are byte strings built from the reference rendering of generated messages
+
+def raw_cases(entries, ops):
+    """entries: list of (ctxname, msgtype, raw bytes, class label) -> script lines"""
+    lines = []
+    for k, (cn, mt, raw, cls) in enumerate(entries):
+        lines += ['CASE %d %s' % (k, cn), 'M ' + mt, 'CLASS ' + cls, 'RAW ' + (raw.hex() or '00'), 'DO ' + ops, 'END']
+    return lines
+
+
+def all_pairs():
+    """every (Length, data) pair of both schemas: (ctx idx, root msgtype, [group path nums], length num, data num, where)"""
+    out = []
+    for i, (cn, s, pairs) in enumerate(schemas()):
+        def rec(root, path, sect, where):
+            for ln, dt in s.data_pairs(sect):
+                out.append((i, root, list(path), ln.num, dt.num, where + ('-group' if path else '')))
+            for m in sect.members:
+                if m.group:
+                    rec(root, path + [m.num], m.group, where)
+        first = s.msg_order[5]
+        rec(first, [], s.header, 'header')
+        rec(first, [], s.trailer, 'trailer')
+        for mt in s.msg_order:
+            rec(mt, [], s.messages[mt], 'body')
+    return out
+
+
+PAYLOAD_CLASSES = ['printable', 'contains-soh', 'contains-equals', 'contains-soh-10=', 'high-bit', 'contains-nul', 'length-1', 'length-2047', 'mixed-binary']
+
+
+def payload(rng, cls):
+    n = rng.randint(2, 120)
+    if cls == 'printable':
+        return bytes(rng.randint(32, 126) for _ in range(n))
+    if cls == 'contains-soh':
+        b = bytearray(rng.randint(32, 126) for _ in range(n))
+        for _ in range(rng.randint(1, 4)):
+            b[rng.randrange(n)] = 1
+        return bytes(b)
+    if cls == 'contains-equals':
+        b = bytearray(rng.randint(48, 57) for _ in range(n))
+        for _ in range(rng.randint(1, 4)):
+            b[rng.randrange(n)] = 61
+        return bytes(b)
+    if cls == 'contains-soh-10=':
+        return bytes(rng.randint(65, 90) for _ in range(5)) + b'\x0110=123\x01' + bytes(rng.randint(65, 90) for _ in range(rng.randint(0, 9)))
+    if cls == 'high-bit':
+        return bytes(rng.randint(128, 255) for _ in range(n))
+    if cls == 'contains-nul':
+        b = bytearray(rng.randint(33, 126) for _ in range(n))
+        b[rng.randrange(1, n)] = 0
+        return bytes(b)
+    if cls == 'length-1':
+        return bytes([rng.choice([1, 61, 65, 255])])
+    if cls == 'length-2047':
+        return bytes(rng.choice([1, 61, 65, 66, 200]) for _ in range(2047))
+    return bytes(rng.choice([0 if False else 1, 61, 10, 13, 127, 200, 65, 32]) for _ in range(n))
+
+
+def c06(tier, seed):
+    c = Check('C06', tier, seed)
+    exe = c.build('asan', ['codec_exec'])['codec_exec']
+    sch = schemas()
+    rng = random.Random(seed * 31 + 6)
+    pairs_list = all_pairs()
+    n = 2400 if c.quick else 100000
+    api_lines, api_meta, raw_entries, raw_meta = [], {}, [], {}
+    gens = [fixgen.Gen(s, rng, max_str=16, opt_pct=12) for _, s, _ in sch]
+    for k in range(n):
+        i, root, path, lnum, dnum, where = pairs_list[k % len(pairs_list)] if k < 3 * len(pairs_list) else rng.choice(pairs_list)
+        cn, s, pm = sch[i]
+        cls = PAYLOAD_CLASSES[(k // len(pairs_list)) % len(PAYLOAD_CLASSES)] if k < 3 * len(pairs_list) else rng.choice(PAYLOAD_CLASSES)
+        g = gens[i]
+        g.force = set(path) | {lnum, dnum}
+        g.override = {dnum: payload(rng, cls)}
+        msg = g.message(root)
+        for _ in range(6):      # stay within the maximum message length (larger messages are C03's business)
+            if len(fixgen.render(msg, s.begin_string)) < 7600:
+                break
+            g.opt_pct, g.max_elems = 4, 1
+            msg = g.message(root)
+        g.opt_pct, g.max_elems = 12, 3
+        g.force, g.override = set(), {}
+        if len(fixgen.render(msg, s.begin_string)) >= 7600:
+            continue
+        label = '%s|%s' % (where, cls)
+        if cls != 'contains-nul':      # the generic factory builds fields from C strings: NUL cannot be built through it
+            kk = len(api_meta)
+            api_lines += ['CASE %d %s' % (kk, cn)] + fixgen.script_lines(msg) + ['CLASS ' + label, 'DO ENC DEC', 'END']
+            api_meta[kk] = (cn, s, pm, msg, label)
+        raw_meta[len(raw_entries)] = (cn, s, pm, msg, label)
+        raw_entries.append((cn, root, fixgen.render(msg, s.begin_string), label))
+    obs = run_script(c, exe, api_lines, len(api_meta), 'c06api')
+    # reuse the C01 oracle, re-keyed by the pair's location and payload class
+    sub = Check.__new__(Check)
+    sub.__dict__.update(c.__dict__)
+    sub.violations, sub.evaluations, sub.hashes, sub.stats = [], 0, {}, {}
+    check_roundtrip(sub, obs, {k: v[:4] for k, v in api_meta.items()})
+    for v in sub.violations:
+        m = re.search(r'case=(\d+)', v.detail)
+        label = api_meta[int(m.group(1))][4] if m else '?'
+        c.add_violation(v.key.split('|')[0] + '|api|' + label, v.detail)
+    c.evaluations += sub.evaluations
+    obs2 = run_script(c, exe, raw_cases(raw_entries, 'RAWDEC'), len(raw_entries), 'c06raw')
+    seen = set()
+    for k, (cn, s, pm, msg, label) in raw_meta.items():
+        o = obs2.get(k)
+        c.evaluations += 1
+        if o is None:
+            continue
+        raw = raw_entries[k][2]
+        ctxs = 'ctx=%s msg=%s case=%d pair=%s' % (cn, msg['msgtype'], k, label)
+        if 'RAWDEC' not in o.ops or o.ops['RAWDEC'][0] != 'ok':
+            c.add_violation('oracle:decode-rejects-data-field|raw|' + label, '%s: %s wire=%r' % (ctxs, exc_text(o.ops.get('RAWDEC', ('', ''))[1])[:120], raw[:160]))
+            continue
+        p = fixwire.parse_message(raw, s, pm)
+        want, got = dump_parsed(p, s), o.ops['RAWDEC'][1]
+        if want != got:
+            i = 0
+            while i < min(len(got), len(want)) and got[i] == want[i]:
+                i += 1
+            c.add_violation('oracle:data-field-content-differs|raw|' + label, '%s: at dump offset %d got ...%s want ...%s' % (ctxs, i, got[max(0, i - 30):i + 50], want[max(0, i - 30):i + 50]))
+            continue
+        seen.add(hash((cn, label, msg['msgtype'])))
+    c.hashes['pair_class'] = seen
+    c.extra['data_pairs_in_schemas'] = len(pairs_list)
+    c.samples = [{'pair': raw_meta[0][4], 'wire': raw_entries[0][2].decode('latin-1')[:300]}, {'pair': raw_meta[7][4], 'wire': raw_entries[7][2].decode('latin-1')[:300]}]
+    c.distinct_names = ['pair_class']
+    c.rule = ('every (Length, data) pair the independent schema model finds in header, bodies, trailer and repeating groups of both schemas '
+              'x payload classes {printable, SOH, "=", SOH+"10=", high-bit, NUL, length 1, length 2047, mixed}; two paths: built through the '
+              'API then encode/decode/re-encode (C01 oracle), and reference-rendered bytes decoded by the factory (all classes incl. NUL); the '
+              'payload and every following field must come back identical; distinct = (schema, message, pair location, payload class)')
+    c.assumptions = ['payload length <= 2047 (FIX8_MAX_FLD_LENGTH - 1)', 'NUL payloads are only exercised on the decode side (the metadata factory takes C strings)']
+    c.finish()
